@@ -77,10 +77,12 @@ def run(tier, seed):
                 for name in nonpub:
                     if squash(" " + name.replace("_", "-") + " ") in (" " + listed + " ") and name.strip("_"):
                         viols.append({"key": "non-public member listed in top-level help", "cls": cls_name, "width": width, "member": name})
+            first_answers = {}
             for name, member in pub.items():
                 cmd = name.replace("_", "-")
                 before = pool_obs(pool)
                 out = ask(cmd + " -h")
+                first_answers[cmd] = out
                 distinct.add((cls_name, cmd))
                 ok = len(out) == 1 and ("usage: " + cmd) in out[0]
                 doc = first_doc(member)
@@ -112,6 +114,24 @@ def run(tier, seed):
                     viols.append({"key": "non-public member reachable as a command", "cls": cls_name, "width": width, "cmd": cmd, "reply": repr(out)[:300]})
             if s.died():
                 viols.append({"key": "session ended during enumeration", "cls": cls_name, "width": width, "how": s.died()})
+            if width in (None, 80, 120):
+                # a second client of the same pool (same terminal width) while the first is still connected
+                with cap.active():
+                    s2 = Session(loop, pool, width, name="sess2")
+                    loop.run_idle()
+                evaluations += 1
+                if s2.take() != [str(pool).encode() + b"\n"] or s2.died():
+                    viols.append({"key": "handshake of a second client", "cls": cls_name, "width": width, "session": s2.died()})
+                else:
+                    for cmd, want in first_answers.items():
+                        with cap.active():
+                            s2.send(cmd + " -h")
+                            loop.run_idle()
+                        evaluations += 1
+                        got = [b.decode() for b in s2.take()]
+                        if got != want or s.take():
+                            viols.append({"key": "second client: command help differs / leaks into the first session", "cls": cls_name,
+                                          "width": width, "cmd": cmd, "reply": repr(got)[:200]})
             shutdown(loop)
     if cap.text():
         viols.append({"key": "server printed to stdout/stderr", "text": cap.text()[:300]})
